@@ -371,7 +371,27 @@ impl<'r> Gen<'r> {
                     d
                 }
                 3 => long_text(rng),
-                0 => invalid_utf8(rng),
+                0 => {
+                    let bad = if rng.chance(1, 2) { invalid_utf8(rng) } else { rng.pick(mutate::BAD_UTF8).to_vec() };
+                    // for the document kinds also inside a literal of an otherwise well-formed text
+                    match kind {
+                        S::Zinc | S::FilterText | S::Json if rng.chance(2, 3) => {
+                            let (pre, post): (&[u8], &[u8]) = match (kind, rng.below(3)) {
+                                (S::Zinc, 0) => (b"\"caf", b"\""),
+                                (S::Zinc, 1) => (b"{dis:\"", b"\" site}"),
+                                (S::Zinc, _) => (b"ver:\"3.0\"\na\n`http://x/", b"`\n"),
+                                (S::FilterText, _) => (b"dis == \"", b"\" and site"),
+                                (_, 0) => (b"\"", b"\""),
+                                (_, _) => (b"{\"dis\":\"", b"\",\"site\":{\"_kind\":\"marker\"}}"),
+                            };
+                            let mut d = pre.to_vec();
+                            d.extend_from_slice(&bad);
+                            d.extend_from_slice(post);
+                            d
+                        }
+                        _ => bad,
+                    }
+                }
                 1 => long_text(rng),
                 _ => match kind {
                     S::Unit => rng.pick_str(BAD_UNITS).as_bytes().to_vec(),
@@ -1347,6 +1367,48 @@ pub fn sweep_hostile(prop: &str) -> Vec<Case> {
     cases
 }
 
+/// Text whose multi-byte characters straddle every byte offset up to 136, in every text parameter
+/// of every function: whatever cuts, pads or echoes caller text at a byte count (an excerpt in an
+/// error message, an inline buffer) meets a character boundary it must not split.
+pub fn sweep_straddle(prop: &str) -> Vec<Case> {
+    let mut cases = Vec::new();
+    for spec in SPECS {
+        for si in 0..spec.s.len() {
+            for k in 0..=136usize {
+                for (vn, tail) in [("2", "°bb"), ("4", "😀")] {
+                    if vn == "4" && k % 2 == 1 {
+                        continue;
+                    }
+                    let text = format!("{}{}", "a".repeat(k), tail);
+                    let mut op = default_op(spec, FIX_OUT);
+                    op.s[si] = Some(hex(text.as_bytes()));
+                    cases.push(sweep_case(prop, "sweep:straddle", format!("{} text#{si} {k} bytes then a {vn}-byte character", spec.f), vec![op]));
+                }
+            }
+        }
+    }
+    cases
+}
+
+/// Long runs of failing calls on one thread whose messages nobody fetches, then one fetch (or
+/// none) and the end of the thread: whatever is kept per failure must not pile up.
+pub fn sweep_storm(prop: &str) -> Vec<Case> {
+    let mut cases = Vec::new();
+    for n in [1_000u64, 40_000, 400_000] {
+        for take in [true, false] {
+            let mut ops = vec![Op::new(0, "fail_storm").n(&[n]), Op::new(0, "haystack_value_make_str").h(&[FIX_NEW]).s(&[None])];
+            if take {
+                ops.push(Op::new(0, "last_error_message").h(&[1]));
+                ops.push(Op::new(0, "haystack_string_destroy").h(&[1]));
+            }
+            ops.push(Op::new(0, "thread_exit"));
+            ops.push(Op::new(0, "haystack_value_make_str").h(&[FIX_NEW]).s(&[None]));
+            cases.push(sweep_case(prop, "sweep:storm", format!("{n} failing calls in a row, message {}", if take { "fetched once" } else { "never fetched" }), ops));
+        }
+    }
+    cases
+}
+
 /// Every zone of the tz database, in three spellings, through the timestamp constructor, the
 /// accessors and both codecs.
 pub fn sweep_zone(prop: &str) -> Vec<Case> {
@@ -1476,7 +1538,7 @@ impl CApi {
     }
 }
 
-const SWEEPS: &[&str] = &["sweep:null", "sweep:kind", "sweep:index", "sweep:errslot", "sweep:borrow", "sweep:zone", "sweep:hostile", "sweep:size", "sweep:equalish", "sweep:alias"];
+const SWEEPS: &[&str] = &["sweep:null", "sweep:kind", "sweep:index", "sweep:errslot", "sweep:borrow", "sweep:zone", "sweep:hostile", "sweep:size", "sweep:equalish", "sweep:alias", "sweep:straddle", "sweep:storm"];
 /// sweeps are split into this many units so that they spread over the worker processes
 const SWEEP_PARTS: u64 = 8;
 
@@ -1515,6 +1577,8 @@ impl Engine for CApi {
                 "sweep:size" => sweep_size(prop),
                 "sweep:equalish" => sweep_equalish(prop),
                 "sweep:alias" => sweep_alias(prop),
+                "sweep:straddle" => sweep_straddle(prop),
+                "sweep:storm" => sweep_storm(prop),
                 _ => sweep_errslot(prop),
             };
             return Box::new(all.into_iter().enumerate().filter(move |(i, _)| *i as u64 % SWEEP_PARTS == part).map(|(_, c)| c));
